@@ -161,8 +161,16 @@ def check_c04(tier):
 
     cases, stats = gen_conv()
     res = convx.replay(cases)
+    # the numba extension has its own conversion overloads: every to_<system> / to_VectorND compiled for each source
+    # system (quick: alternating flavors), against the interpreter
+    from . import coords, numbax
+
+    sigs = [s for n in (2, 3, 4) for s in coords.signatures(n)]
+    nitems = [("conv", s, fl) for i, s in enumerate(sigs) for fl in (("generic", "momentum") if tier == "thorough" else (("momentum",) if (i + common.seed()) % 2 else ("generic",)))]
+    nres = numbax.replay_items(nitems)
     v = common.Verdicts("C04")
     v.extend(res["records"])
+    v.extend(nres["records"])
     nviol, nknown = v.finish()
     if len(cases) < 2000 or res["calls"] < 20000:
         raise RuntimeError("vacuous run")
@@ -170,8 +178,8 @@ def check_c04(tier):
     for c in cases:
         kinds[c["kind"]] = kinds.get(c["kind"], 0) + 1
     cov = {"states": stats["distinct"], "transitions": stats["generated"], "traces_validated_against_impl": len(cases),
-           "samples": [cases[0], cases[len(cases) // 2], cases[-1]], "states_by_kind": kinds, "implementation_calls": res["calls"],
-           "backends": ["object (60-digit)", "object (float64)", "NumPy", "Awkward array", "Awkward record"], "flavors": ["generic", "momentum"],
+           "samples": [cases[0], cases[len(cases) // 2], cases[-1]], "states_by_kind": kinds, "implementation_calls": res["calls"] + nres["calls"], "numba_compiled_conversion_sources": len(nitems),
+           "backends": ["object (60-digit)", "object (float64)", "NumPy (float64, float32, int64)", "Awkward array", "Awkward record", "numba (compiled, against the interpreter)"], "flavors": ["generic", "momentum"],
            "evaluations": res["calls"], "distinct_nontrivial": len(cases),
            "rule": ("states of spec/Convert.tla = 20 source systems x 20 targets x {geometric, momentum} spelling x keyword choices for to_<system>; "
                     "20 sources x {to_VectorND, to_ND} x 3 dimensions x every keyword spelling; like; two-keywords-of-one-group TypeError cases - "
